@@ -524,7 +524,7 @@ func (propC09) Rule() string {
 }
 func (propC09) Runs(tier string) int {
 	if tier == "thorough" {
-		return 500000
+		return 300000
 	}
 	return 8000
 }
